@@ -128,12 +128,12 @@ pub struct VariableTime {
 
 impl Display for VariableTime {
     fn fmt(&self, f: &mut std::fmt::Formatter<'_>) -> std::fmt::Result {
-        write!(f, "{}", self.event)?;
+        let abs = self.offset.unsigned_abs();
 
         match self.offset.cmp(&0) {
-            Ordering::Less => write!(f, "{}", self.offset),
-            Ordering::Greater => write!(f, "+{}", self.offset),
-            Ordering::Equal => Ok(()),
+            Ordering::Less => write!(f, "({}-{:02}:{:02})", self.event, abs / 60, abs % 60),
+            Ordering::Greater => write!(f, "({}+{:02}:{:02})", self.event, abs / 60, abs % 60),
+            Ordering::Equal => write!(f, "{}", self.event),
         }
     }
 }
